@@ -12,7 +12,7 @@ import os
 
 import runner
 from flow import Flow
-from mir import callee_of, op_local, op_place, op_const
+from mir import callee_of, op_local, op_place, op_const, rv_operands
 from paths import follow_result, ok_assign_blocks, must_pass
 from report import Report
 
@@ -84,137 +84,233 @@ def run(tier="quick", replay=None):
         R.viol("R19", "R19|anchor-lost|gentle_overwrite", "util", "anchor lost: util::gentle_overwrite")
         return R.finalize()
 
-    # ---- (c) the atomic writer: the function(s) calling persist -------------------
+    # ---- write family: crate-local functions that (transitively) mutate the filesystem ----
+    def direct_w(f):
+        return any(is_w(callee_of(t) or "") for _, t in f.calls(include_cleanup=True))
+
+    def persists_directly(f):
+        return any("NamedTempFile" in (callee_of(t) or "") and "::persist" in (callee_of(t) or "") for _, t in f.calls())
+
+    def closure_over_calls(seed_pred):
+        fam = {f.path for f in prog.fns.values() if seed_pred(f)}
+        changed = True
+        while changed:
+            changed = False
+            for f in prog.fns.values():
+                if f.path in fam:
+                    continue
+                for _, t in f.calls():
+                    if any(c in fam for c in prog.call_targets(t)):
+                        fam.add(f.path)
+                        changed = True
+                        break
+        return fam
+    write_family = closure_over_calls(direct_w)
+    persist_family = closure_over_calls(persists_directly)
+
+    # ---- (c) staging protocol ---------------------------------------------------------
+    creators = [(f, bb, t) for f, bb, t in prog.call_sites(
+        lambda c: c.startswith("tempfile::") and c.split("::")[-1] in TEMP_CREATORS)]
     persist_sites = prog.call_sites(lambda c: "NamedTempFile" in c and "::persist" in c)
+    R.floor("R19.c", "temp-file creation sites", len(creators), 1)
     R.floor("R19.c", "persist sites", len(persist_sites), 1)
-    writer_fns = sorted({f.path for f, _, _ in persist_sites})
-    out_param_of = {}
-    for wpath in writer_fns:
-        f = prog.fn(wpath)
+    stagers = {}        # fn path -> dict(out_param, tmp_locals, hands_out)
+    out_param_of = {}   # fn path -> parameter (1-based) naming the output path, for stagers/committers/writers
+    for f, bb, t in creators:
         fl = Flow(f)
-        site = "%s:%d" % (f.file, f.line)
-        creates = [(bb, t) for bb, t in f.calls() if (callee_of(t) or "").startswith("tempfile::")
-                   and callee_of(t).split("::")[-1] in TEMP_CREATORS]
-        writes = [(bb, t) for bb, t in f.calls() if (callee_of(t) or "").endswith("::write_all")
-                  or (callee_of(t) or "").endswith("io::Write>::write")]
-        persists = [(bb, t) for bb, t in f.calls() if "::persist" in (callee_of(t) or "")]
+        c = callee_of(t)
+        key = "R19.c.sibling|%s" % f.path
+        ok_kind = c.endswith("::new_in") or c.endswith("tempfile_in") or c.endswith("::make_in") or c.endswith("_in")
+        if not ok_kind or not t["args"]:
+            R.viol("R19.c.sibling", key, f.loc(bb),
+                   "%s stages its output with %s, which does not create the temporary file in the output's own "
+                   "directory (rename across filesystems is not atomic / may fail)" % (f.path, c), fn=f.path)
+            continue
+        dl = op_local(t["args"][0])
+        parent_params = set()
+        for pbb, pt in fl.derives_from_call(dl, lambda c: c.endswith("Path::parent")):
+            parent_params |= params_reaching_arg(f, fl, pt, 0)
+        others = params_reaching_arg(f, fl, t, 0) - parent_params
+        good = len(parent_params) == 1 and not others
+        R.check(good, "R19.c.sibling", key, f.loc(bb),
+                "auto: temp dir = Path::parent(parameter _%s)" % sorted(parent_params),
+                "temporary file directory in %s does not derive from Path::parent(<one path parameter>) (parent params=%s, "
+                "other params=%s): staging elsewhere breaks atomic rename" % (f.path, sorted(parent_params), sorted(others)),
+                fn=f.path)
+        if not good:
+            continue
+        outp = next(iter(parent_params))
+        out_param_of[f.path] = outp
+        tmp_locals = fl.forward([t["dest"]["l"]])
         oks = ok_assign_blocks(f)
-        R.floor("R19.c", "%s temp-create" % wpath, len(creates), 1, site)
-        R.floor("R19.c", "%s write_all" % wpath, len(writes), 1, site)
-        R.floor("R19.c", "%s Ok returns" % wpath, len(oks), 1, site)
-        if not (creates and writes and persists and oks):
+        # hand-out points: persist on the temp, or an Ok/Some return carrying the temp
+        handout = []
+        for b2, t2 in f.calls():
+            if "::persist" in (callee_of(t2) or "") and op_local(t2["args"][0]) in tmp_locals:
+                handout.append(b2)
+        returns_tmp = False
+        for b2, i2, s2 in f.stmts():
+            if s2["pl"]["l"] == 0 and not s2["pl"]["p"] and any(op_local(o) in tmp_locals for o in rv_operands(s2["rv"])):
+                if "NamedTempFile" in f.local_ty(0):
+                    handout.append(b2)
+                    returns_tmp = True
+        key = "R19.c.write|%s" % f.path
+        if not handout:
+            R.viol("R19.c.write", key, f.loc(bb), "%s creates a temporary file that is neither persisted nor returned" % f.path, fn=f.path)
             continue
-        # persist: path argument derives from exactly one parameter = the output path
-        for bb, t in persists:
-            outp = params_reaching_arg(f, fl, t, 1)
-            R.check(len(outp) == 1, "R19.c.persist-target", "R19.c.persist-target|%s" % wpath, f.loc(bb),
-                    "auto: persist target derives from parameter _%s" % sorted(outp),
-                    "persist target in %s derives from parameters %s, expected exactly one (the output path)" % (
-                        wpath, sorted(outp)), fn=wpath)
-            if len(outp) == 1:
-                out_param_of[wpath] = next(iter(outp))
-        outp = out_param_of.get(wpath)
-        if outp is None:
-            continue
-        # temp file is created in the output's own directory
-        for bb, t in creates:
-            c = callee_of(t)
-            ok_kind = c.endswith("::new_in") or c.endswith("tempfile_in") or c.endswith("::make_in")
-            key = "R19.c.sibling|%s" % wpath
-            if not ok_kind or not t["args"]:
-                R.viol("R19.c.sibling", key, f.loc(bb),
-                       "%s stages its output with %s, which does not create the temporary file in the "
-                       "output's directory (rename across filesystems is not atomic / may fail)" % (wpath, c), fn=wpath)
-                continue
-            dl = op_local(t["args"][0])
-            via_parent = [1 for _, tt in fl.derives_from_call(dl, lambda c: c.endswith("Path::parent"))]
-            parent_ok = False
-            for pbb, pt in fl.derives_from_call(dl, lambda c: c.endswith("Path::parent")):
-                if outp in params_reaching_arg(f, fl, pt, 0):
-                    parent_ok = True
-            others = params_reaching_arg(f, fl, t, 0) - {outp}
-            R.check(parent_ok and not others, "R19.c.sibling", key, f.loc(bb),
-                    "auto: temp dir = Path::parent(output path param _%d)" % outp,
-                    "temporary file directory in %s does not derive from Path::parent(<output path>) "
-                    "(via_parent=%s, other params=%s): staging elsewhere breaks atomic rename" % (
-                        wpath, bool(via_parent), sorted(others)), fn=wpath)
-        tmp_locals = set()
-        for bb, t in creates:
-            tmp_locals |= fl.forward([t["dest"]["l"]])
-        # write_all: receiver is the temp file, data derives from a parameter, failure -> Err only
-        data_params = set()
+        fr_c = follow_result(f, bb)
+        starts = fr_c["success"] if fr_c else [t.get("target")]
         w_success = []
-        for bb, t in writes:
-            recv = op_local(t["args"][0])
-            key = "R19.c.write|%s" % wpath
-            if recv not in tmp_locals:
-                R.info("write_all in %s on a non-temp receiver ignored" % wpath)
+        data_params = set()
+        bad_write = None
+        for b2, t2 in f.calls():
+            c2 = callee_of(t2) or ""
+            if not (c2.endswith("::write_all") or c2.endswith("io::Write>::write")):
                 continue
-            dps = params_reaching_arg(f, fl, t, 1)
-            data_params |= dps
-            fr = follow_result(f, bb)
+            if op_local(t2["args"][0]) not in tmp_locals:
+                continue
+            data_params |= params_reaching_arg(f, fl, t2, 1)
+            fr = follow_result(f, b2)
             if fr is None:
-                R.viol("R19.c.write", key, f.loc(bb),
-                       "result of write_all in %s is not tested (`?`/match) before the file is persisted: "
-                       "a short or failed write would be renamed over the output" % wpath, fn=wpath)
+                bad_write = "the result of write_all is not tested (`?`/match) before the file is handed on"
                 continue
-            bad = f.reachable_from_set(fr["failure"]) & set(oks)
-            R.check(not bad and bool(dps), "R19.c.write", key, f.loc(bb),
-                    "auto: write_all(data from param %s) error edge reaches only Err returns" % sorted(dps),
-                    "write_all in %s: %s" % (wpath, "its failure edge can reach an Ok return" if bad
-                                             else "written data does not derive from a parameter"), fn=wpath)
+            if f.reachable_from_set(fr["failure"]) & set(handout):
+                bad_write = "the failure edge of write_all can still reach persist / the Ok return"
+                continue
+            if c2.endswith("io::Write>::write"):
+                bad_write = "uses Write::write (may write only part of the data) instead of write_all"
+                continue
             w_success.extend(fr["success"])
-        R.floor("R19.c", "%s checked write_all on temp" % wpath, len(w_success), 1, site)
-        # persist is only reachable through write success; Ok only through persist success
-        for bb, t in persists:
-            recv = op_local(t["args"][0])
-            key = "R19.c.order|%s" % wpath
-            cond1 = recv in tmp_locals
-            cond2 = bool(w_success) and must_pass(f, 0, [bb], w_success)
-            fr = follow_result(f, bb)
-            cond3 = fr is not None and all(must_pass(f, 0, [o], fr["success"]) for o in oks) \
-                and not (f.reachable_from_set(fr["failure"]) & set(oks))
-            R.check(cond1 and cond2 and cond3, "R19.c.order", key, f.loc(bb),
-                    "auto: entry -> write_all success -> persist(temp, output) success -> Ok, on every path",
-                    "protocol order broken in %s: persist receiver is the temp file=%s; every path to persist "
-                    "passes write_all's success edge=%s; every Ok return passes persist's success edge=%s" % (
-                        wpath, cond1, cond2, cond3), fn=wpath)
-        # nothing else mutates the filesystem in the writer
-        for bb, t in f.calls():
-            c = callee_of(t) or ""
-            if is_w(c) and not any(x in c for x in ("::new_in", "::write_all", "::persist", "NamedTempFile::<F>::path",
-                                                    "::as_file", "::flush", "::sync_all", "::sync_data")):
-                R.viol("R19.c.extra", "R19.c.extra|%s|%s" % (wpath, c), f.loc(bb),
-                       "%s performs an additional filesystem mutation %s besides temp-create/write/persist" % (wpath, c),
-                       fn=wpath)
-        R.counts["writer:" + wpath] = {"creates": len(creates), "writes": len(writes), "persists": len(persists),
-                                       "output_param": outp, "data_params": sorted(data_params)}
+        passes = bool(w_success) and all(must_pass(f, s, handout, w_success) for s in starts if s is not None)
+        R.check(passes and not bad_write and bool(data_params), "R19.c.write", key, f.loc(bb),
+                "auto: every path from temp creation to %s passes write_all(data from param %s)'s success edge" % (
+                    "persist" if not returns_tmp else "persist / returning the staged file", sorted(data_params)),
+                "%s can hand on a temporary file that was not completely written: %s" % (
+                    f.path, bad_write or ("a path from creation to persist/return avoids the checked write_all"
+                                          if data_params else "written data does not derive from a parameter")), fn=f.path)
+        stagers[f.path] = {"out_param": outp, "returns_tmp": returns_tmp, "data_params": sorted(data_params)}
+        # nothing else mutates the filesystem in a stager
+        for b2, t2 in f.calls():
+            c2 = callee_of(t2) or ""
+            if is_w(c2) and not any(x in c2 for x in ("_in", "::write_all", "::persist", "NamedTempFile::<F>::path",
+                                                      "::as_file", "::flush", "::sync_all", "::sync_data")):
+                R.viol("R19.c.extra", "R19.c.extra|%s|%s" % (f.path, c2), f.loc(b2),
+                       "%s performs an additional filesystem mutation %s besides temp-create/write/persist" % (f.path, c2), fn=f.path)
+
+    writer_fns = set()       # functions that persist (directly)
+    for f, bb, t in persist_sites:
+        fl = Flow(f)
+        writer_fns.add(f.path)
+        key = "R19.c.order|%s" % f.path
+        # target path: exactly one parameter
+        outp = params_reaching_arg(f, fl, t, 1)
+        R.check(len(outp) == 1, "R19.c.persist-target", "R19.c.persist-target|%s" % f.path, f.loc(bb),
+                "auto: persist target derives from parameter _%s" % sorted(outp),
+                "persist target in %s derives from parameters %s, expected exactly one (the output path)" % (f.path, sorted(outp)),
+                fn=f.path)
+        if len(outp) == 1:
+            po = next(iter(outp))
+            if f.path in out_param_of and out_param_of[f.path] != po:
+                R.viol("R19.c.same-path", "R19.c.same-path|%s" % f.path, f.loc(bb),
+                       "%s stages next to parameter _%d but persists onto parameter _%d" % (f.path, out_param_of[f.path], po), fn=f.path)
+            out_param_of[f.path] = po
+        # provenance of the file being persisted
+        recv = op_local(t["args"][0])
+        back = fl.back([recv])
+        prov = None
+        if f.path in stagers:
+            prov = "created and written in this function"
+        else:
+            for l in back:
+                for b2, t2 in fl.call_defs.get(l, []):
+                    if callee_of(t2) in stagers and stagers[callee_of(t2)]["returns_tmp"]:
+                        prov = "from stager %s" % callee_of(t2)
+                        # same output path for staging and committing
+                        sp = params_reaching_arg(f, fl, t2, stagers[callee_of(t2)]["out_param"] - 1)
+                        if len(outp) == 1 and sp != outp:
+                            R.viol("R19.c.same-path", "R19.c.same-path|%s" % f.path, f.loc(bb),
+                                   "%s stages next to %s but persists onto %s" % (f.path, sorted(sp), sorted(outp)), fn=f.path)
+            if prov is None:
+                tparams = [x for x in back if 1 <= x <= f.argc and "NamedTempFile" in f.local_ty(x)]
+                if tparams:
+                    # committer: every caller must pass a staged file for the same output path
+                    q = tparams[0]
+                    callers = [(g, cb, ct) for g, cb, ct in prog.call_sites(lambda c: c == f.path)]
+                    okc = bool(callers)
+                    why = "no caller"
+                    for g, cb, ct in callers:
+                        gfl = Flow(g)
+                        al = op_local(ct["args"][q - 1])
+                        found = False
+                        for l in gfl.back([al]) if al is not None else []:
+                            for b3, t3 in gfl.call_defs.get(l, []):
+                                c3 = callee_of(t3)
+                                if c3 in stagers and stagers[c3]["returns_tmp"]:
+                                    found = True
+                                    if len(outp) == 1:
+                                        a_stage = params_reaching_arg(g, gfl, t3, stagers[c3]["out_param"] - 1)
+                                        a_commit = params_reaching_arg(g, gfl, ct, next(iter(outp)) - 1)
+                                        if a_stage != a_commit:
+                                            okc = False
+                                            why = "%s stages next to %s but commits onto %s" % (g.path, sorted(a_stage), sorted(a_commit))
+                        if not found:
+                            okc = False
+                            why = "%s passes a file that does not come from a stager" % g.path
+                    if okc:
+                        prov = "parameter _%d, staged by every caller (%d)" % (q, len(callers))
+                    else:
+                        R.viol("R19.c.order", key, f.loc(bb), "%s persists a temporary file of unknown provenance: %s" % (f.path, why), fn=f.path)
+                        continue
+        if prov is None:
+            R.viol("R19.c.order", key, f.loc(bb),
+                   "%s persists a file that is not a temp file created next to the output and fully written first" % f.path, fn=f.path)
+            continue
+        # Ok only through persist success
+        oks = ok_assign_blocks(f)
+        fr = follow_result(f, bb)
+        direct_ret = t["dest"]["l"] == 0
+        cond3 = direct_ret or (fr is not None and all(must_pass(f, 0, [o], fr["success"]) for o in oks)
+                               and not (f.reachable_from_set(fr["failure"]) & set(oks)))
+        R.check(cond3, "R19.c.order", key, f.loc(bb),
+                "auto: persisted file is %s; Ok is returned only through persist's success edge" % prov,
+                "%s can return Ok although persist failed (its result is dropped or its failure edge reaches Ok)" % f.path, fn=f.path)
+    R.counts["stagers"] = stagers
+    R.counts["persisting functions"] = sorted(writer_fns)
 
     # ---- (d) gentle_overwrite contract ---------------------------------------------
     f = go
     fl = Flow(f)
-    aw_calls = [(bb, t) for bb, t in f.calls() if callee_of(t) in writer_fns]
-    R.floor("R19.d", "calls to the atomic writer", len(aw_calls), 2, "%s:%d" % (f.file, f.line))
+    from paths import err_assign_blocks
+    errb = set(err_assign_blocks(f))
+    okb = set(ok_assign_blocks(f))
+    rets = f.return_blocks()
+    steps = []       # write steps: calls into the write family
+    for bb, t in f.calls():
+        tg = prog.call_targets(t)
+        if any(c in write_family for c in tg) or is_w(callee_of(t) or ""):
+            steps.append((bb, t))
+    persisting_steps = [(bb, t) for bb, t in steps if any(c in persist_family for c in prog.call_targets(t))]
+    R.floor("R19.d", "write steps in gentle_overwrite", len(steps), 2, "%s:%d" % (f.file, f.line))
+    R.floor("R19.d", "persisting steps in gentle_overwrite", len(persisting_steps), 2, "%s:%d" % (f.file, f.line))
     eqs = [(bb, t) for bb, t in f.calls() if "PartialEq" in (callee_of(t) or "") and (callee_of(t) or "").endswith("::eq")
            or (t.get("callee") or "").endswith("PartialEq::eq")]
     R.floor("R19.d", "content equality test", len(eqs), 1, "%s:%d" % (f.file, f.line))
     go_out_param = None
-    for bb, t in aw_calls:
-        w = callee_of(t)
-        if w in out_param_of:
-            ps = params_reaching_arg(f, fl, t, out_param_of[w] - 1)
-            if len(ps) == 1:
-                p = next(iter(ps))
-                R.check(go_out_param in (None, p), "R19.d.same-target", "R19.d.same-target|%d" % bb, f.loc(bb),
-                        "auto: writer's output argument is gentle_overwrite's parameter _%d" % p,
-                        "the two writes in gentle_overwrite target different parameters", fn=f.path)
-                go_out_param = p
-            else:
-                R.viol("R19.d.same-target", "R19.d.same-target|%d" % bb, f.loc(bb),
-                       "output argument of the atomic writer does not derive from exactly one parameter", fn=f.path)
-    if eqs and aw_calls:
+    for bb, t in steps:
+        for w in prog.call_targets(t):
+            if w in out_param_of and out_param_of[w] - 1 < len(t["args"]):
+                ps = params_reaching_arg(f, fl, t, out_param_of[w] - 1)
+                if len(ps) == 1:
+                    p = next(iter(ps))
+                    R.check(go_out_param in (None, p), "R19.d.same-target", "R19.d.same-target|%s" % w, f.loc(bb),
+                            "auto: %s's output argument is gentle_overwrite's parameter _%d" % (w, p),
+                            "write steps in gentle_overwrite target different parameters", fn=f.path)
+                    go_out_param = p
+                else:
+                    R.viol("R19.d.same-target", "R19.d.same-target|%s" % w, f.loc(bb),
+                           "output argument of %s does not derive from exactly one parameter" % w, fn=f.path)
+    if eqs and steps:
         ebb, et = eqs[0]
-        # the switch on the eq result
         sw = None
         nb = et.get("target")
         if nb is not None and f.term(nb)["k"] == "switch" and op_local(f.term(nb)["discr"]) == et["dest"]["l"]:
@@ -225,49 +321,56 @@ def run(tier="quick", replay=None):
             arms = dict((v, tgt) for v, tgt in sw["arms"])
             false_b = arms.get(0, sw["otherwise"])
             true_b = sw["otherwise"] if 0 in arms else arms.get(1)
-            rets = f.return_blocks()
-            # equal branch: every path to return assigns _0 = Ok and _0 does not derive from the write
+            can_reach_eq = {b for b in range(len(f.blocks)) if ebb in f.reachable(b)}
+            # before the comparison: no write step may fail the call
+            pre_bad = []
+            for bb, t in steps:
+                if bb not in can_reach_eq:
+                    continue
+                fr = follow_result(f, bb)
+                if t["dest"]["l"] == 0 or (fr is not None and f.reachable_from_set(fr["failure"]) & errb):
+                    pre_bad.append("%s at %s" % (callee_of(t), f.loc(bb)))
+            # equal branch
             eq_region = f.reachable(true_b, avoid=[false_b])
-            eq_calls = [(bb, t) for bb, t in aw_calls if bb in eq_region and bb not in f.reachable(false_b)]
-            ok_blocks = set(ok_assign_blocks(f))
-            all_ok = must_pass(f, true_b, rets, ok_blocks & eq_region)
-            # does _0 in the equal region take the writer's result?
-            leaks = False
-            for bb, t in eq_calls:
-                if t["dest"]["l"] == 0:
-                    leaks = True
+            only_eq = eq_region - f.reachable(false_b)
+            all_ok = must_pass(f, true_b, rets, okb & eq_region)
+            leaks = bool(errb & only_eq)
+            for bb, t in steps:
+                if bb in only_eq:
+                    if t["dest"]["l"] == 0:
+                        leaks = True
+                    fr = follow_result(f, bb)
+                    if fr is not None and f.reachable_from_set(fr["failure"]) & errb:
+                        leaks = True
+            n_eq_steps = len([1 for bb, _ in steps if bb in only_eq])
+            R.check(all_ok and not leaks and not pre_bad, "R19.d.equal", "R19.d.equal|ok-regardless", f.loc(ebb),
+                    "auto: no fallible write step precedes the same-contents test; on equal contents every path returns "
+                    "Ok(()) and the result of the %d write step(s) attempted there is discarded" % n_eq_steps,
+                    "gentle_overwrite can fail although the new contents equal the old: every equal-branch path assigns Ok=%s, "
+                    "a write failure is propagated inside the equal branch=%s, fallible write steps BEFORE the comparison whose "
+                    "error is returned=%s — the call must succeed even when the file cannot be rewritten" % (all_ok, leaks, pre_bad),
+                    fn=f.path)
+            # differs / unreadable: result is the persisting step's (or a propagated write-step failure)
+            other_starts = [false_b]
+            for bb, t in f.calls():
+                if (callee_of(t) or "").endswith("fs::read_to_string") or (callee_of(t) or "").endswith("fs::read"):
+                    fr = follow_result(f, bb)
+                    if fr:
+                        other_starts.extend(fr["failure"])
+            direct = [bb for bb, t in persisting_steps if t["dest"]["l"] == 0 and not t["dest"]["p"]]
+            # errors propagated from write steps are legitimate ends too
+            prop = set()
+            for bb, t in steps:
                 fr = follow_result(f, bb)
                 if fr is not None:
-                    # a tested result whose failure edge leads to an Err return = failure propagated
-                    from paths import err_assign_blocks
-                    if f.reachable_from_set(fr["failure"]) & set(err_assign_blocks(f)):
-                        leaks = True
-            # any `?`/from_residual inside the equal-only region
-            from paths import err_assign_blocks
-            only_eq = eq_region - f.reachable(false_b)
-            if set(err_assign_blocks(f)) & only_eq:
-                leaks = True
-            R.check(all_ok and not leaks, "R19.d.equal", "R19.d.equal|ok-regardless", f.loc(ebb),
-                    "auto: equal-content branch: every path returns Ok(()); the write's result is discarded (%d write(s) attempted)" % len(eq_calls),
-                    "equal-content branch of gentle_overwrite can fail: all paths assign Ok=%s, write failure "
-                    "propagated=%s — the call must succeed even when the file cannot be rewritten" % (all_ok, leaks),
-                    fn=f.path)
-            # not-equal / unreadable: _0 is the writer's Result on every path
-            other_starts = [false_b]
-            # also the unreadable-file path: read_to_string failure
-            rd = [(bb, t) for bb, t in f.calls() if (callee_of(t) or "").endswith("fs::read_to_string")]
-            for bb, t in rd:
-                fr = follow_result(f, bb)
-                if fr:
-                    other_starts.extend(fr["failure"])
-            direct = [bb for bb, t in aw_calls if t["dest"]["l"] == 0 and not t["dest"]["p"]]
-            okp = all(must_pass(f, s, rets, direct) for s in other_starts) and bool(direct)
-            # and no Ok assignment after it
-            after_ok = any(f.reachable(d) & ok_blocks for d in direct)
+                    prop |= (f.reachable_from_set(fr["failure"]) & errb)
+            okp = bool(direct) and all(must_pass(f, s, rets, set(direct) | prop) for s in other_starts)
+            after_ok = any(f.reachable(d) & okb for d in direct)
             R.check(okp and not after_ok, "R19.d.differs", "R19.d.differs|propagates", f.loc(ebb),
-                    "auto: on changed/unreadable content every path returns the atomic writer's Result",
-                    "when contents differ (or the old file is unreadable) gentle_overwrite does not return the "
-                    "atomic writer's result on every path (silent no-write or swallowed failure)", fn=f.path)
+                    "auto: on changed/unreadable content every path returns the persisting step's Result (or a propagated "
+                    "staging error)",
+                    "when contents differ (or the old file is unreadable) gentle_overwrite does not return the persisting "
+                    "step's result on every path (silent no-write or swallowed failure)", fn=f.path)
 
     # ---- (a) output-path flow in every caller of gentle_overwrite -------------------
     for cfg, pg in progs.items():
@@ -321,8 +424,8 @@ def run(tier="quick", replay=None):
                 seen_writers.add(root)
                 ent = writers_tbl.get(root)
                 key = "R19.b|%s|%s" % (root, c.split("::")[-1])
-                if root in writer_fns:
-                    R.ob("R19.b", key, f2.loc(bb), "auto: the atomic writer (protocol checked by R19.c) [%s]" % cfg, fn=root)
+                if root in writer_fns or root in stagers:
+                    R.ob("R19.b", key, f2.loc(bb), "auto: stager/persister of the atomic replace protocol (checked by R19.c) [%s]" % cfg, fn=root)
                 elif ent:
                     R.ob("R19.b", key, f2.loc(bb), "table: %s — %s" % (ent["class"], ent["reason"]), fn=root)
                 else:
